@@ -691,7 +691,9 @@ __CPROVER_requires(TC_N(tconnect) >= 1 ==> TRK_LOCAL_FRESH(TC_T(tconnect, 0)))
 __CPROVER_requires(TC_N(tconnect) >= 1 ==> TC_TRACK_READY(tconnect, TC_T(tconnect, 0), xv_qa))
 __CPROVER_requires(TC_N(tconnect) >= 2 ==> (TRK_FRESH(TC_T(tconnect, 1)) && TRK_NUM_OK(TC_T(tconnect, 1))))
 __CPROVER_requires(TC_N(tconnect) >= 2 ==> TRK_IPS_FRESH(TC_T(tconnect, 1)))
-/* (the local address is borrowed from the caller: both tracks of a happy-eyeballs pair point at the same one) */
+/* (the local address is borrowed from the caller: in the library both tracks of a happy-eyeballs pair point at the SAME object.
+ * CBMC cannot dereference a pointer field that is merely assumed equal to another pointer (HOWTO, trap a), so the pair is given
+ * two objects here.  Nothing under proof writes through local_ip (const) or compares the two pointers: same behaviour.) */
 __CPROVER_requires(TC_N(tconnect) >= 2 ==> TRK_LOCAL_FRESH(TC_T(tconnect, 1)))
 __CPROVER_requires(TC_N(tconnect) >= 2 ==> (TC_TRACK_READY(tconnect, TC_T(tconnect, 1), xv_qb) && TC_T(tconnect, 0)->fd6 == -1 && TC_T(tconnect, 1)->fd4 == -1))
 __CPROVER_requires(TRK_GHOST_OK_S(32) && xv_regs >= 2 && xv_timers >= 2 && xv_fk >= 0 && xv_fk < XV_NFD)
